@@ -26,9 +26,10 @@ BLOCKS = {
     'It2': ('aa', 'aa'), 'Bk': ('aa', 'a'), 'Ck': ('a', 'aa'),
     # same shapes, different dtypes: only the dtype distinguishes the shared structure
     'P16': ('a16', 'a16'), 'I16': ('a16', 'a16'), 'Pc': ('ac', 'ac'), 'G16': ('a16', 'b16'),
+    'Pcr': ('a', 'ac'), 'P16w': ('a16', 'a'),   # block values wider than the block's input: the block matrix is wider than every input
 }
 TRIPLES = {
-    'diag': [['Hs', 'Hs', 'Hs'], ['P', 'Q', 'D', 'D2', 'I', 'K', 'Q'], ['P', 'G', 'D'], ['I', 'K', 'Q'], ['R', 'P', 'W'], ['D', 'D2', 'K'], ['It2', 'P', 'Bk'], ['Rt', 'R', 'Hs'], ['Q', 'P', 'D2'], ['D2', 'I', 'D']],
+    'diag': [['Pcr', 'P', 'D'], ['P16w', 'I16', 'P16'], ['Hs', 'Hs', 'Hs'], ['P', 'Q', 'D', 'D2', 'I', 'K', 'Q'], ['P', 'G', 'D'], ['I', 'K', 'Q'], ['R', 'P', 'W'], ['D', 'D2', 'K'], ['It2', 'P', 'Bk'], ['Rt', 'R', 'Hs'], ['Q', 'P', 'D2'], ['D2', 'I', 'D']],
     'row': [['P', 'Q', 'D', 'D2', 'I', 'K', 'Q'], ['R', 'Rt', 'R'], ['P', 'Q', 'D'], ['G', 'G2', 'G'], ['Bk', 'P', 'K'], ['I', 'K', 'Q'], ['D', 'D2', 'I']],
     'col': [['Q', 'D2', 'P', 'K', 'D', 'P', 'I'], ['Rt', 'R', 'Rt'], ['P', 'Q', 'D'], ['G', 'P', 'K'], ['Ck', 'G2', 'I'], ['W', 'W', 'W'], ['D2', 'D', 'Q']],
 }
@@ -119,6 +120,8 @@ def env():
         'P16': DenseBlockDiagonalOperator(jnp.asarray([[1, 2], [3, 5]], jnp.float16), a16, 'ij,j->i'), 'I16': IdentityOperator(a16),
         'Pc': DenseBlockDiagonalOperator(jnp.asarray([[1, 2j], [3, 5]], jnp.complex64), ac, 'ij,j->i'),
         'G16': DenseBlockDiagonalOperator(jnp.asarray([[1, 2], [3, 5], [-1, 4]], jnp.float16), a16, 'ij,j->i'),
+        'Pcr': DenseBlockDiagonalOperator(jnp.asarray([[1 + 2j, 3], [-1j, 2 - 1j]], jnp.complex64), a, 'ij,j->i'),
+        'P16w': DenseBlockDiagonalOperator(jnp.asarray([[2049, 2], [3, 4097]], f32), a16, 'ij,j->i'),
     })
     _E.update(blocks=blocks, memo={})
     return _E
@@ -198,7 +201,8 @@ def check_operator(case, violations):
         if M.shape != ref.shape or not P.close(M, ref, tol):
             violations.append({'kind': 'not-the-block-matrix', 'case': case, 'detail': f'acts as {P.mat_summary(M, 60)} instead of {P.mat_summary(ref, 60)}'})
             return
-        A = np.asarray(P.lib('as_matrix', op.as_matrix), dtype=float)
+        A = np.asarray(P.lib('as_matrix', op.as_matrix))
+        A = A.astype(np.complex128 if np.iscomplexobj(A) else np.float64)
         if A.shape != ref.shape or not P.close(A, ref, tol):
             violations.append({'kind': 'as_matrix', 'case': case, 'detail': f'as_matrix() = {P.mat_summary(A, 60)} instead of {P.mat_summary(ref, 60)}'})
         # transpose: class, container, matrix
